@@ -33,7 +33,8 @@ package shrinker
 //@   props C14 C06 C05
 //@   requires shrinkInv(shrinkst) && !muheld[base(shrinkst.mu)] && inum < 32768
 //@   allocates struct:struct{}
-//@   modifies muheld, shrinkst.nthread
+//@   modifies muheld, shrinkst.nthread, shrinkdue
+//@   ghostexit shrinkdue = store(shrinkdue, inum, false)
 //@   ensures muheld == old(muheld)
 //@   ensures [F2-started] shrinkst.nthread == old(shrinkst.nthread) + 1 @C05
 
